@@ -117,6 +117,39 @@ CHECKS = {
     ),
 }
 
+
+# additions made in the second half of the build (DESIGN.md 10.6 / 10.7): appended to the entries above
+ADDENDA = {
+    "C01": dict(text=" A data-dependent precision switch inside these operations forks the evaluation; the identities are required in every world."),
+    "C02": dict(technique="; abstract interpretation of exp over truncated power series in the tangent (R-SERIES, engine/jetnum.py)",
+                text=" R-SERIES.exp: for SO2, SE2, SO3, SE3, SE_2_3, SGal3 the code of exp interpreted over truncated power series with exact rational coefficients (all directions at once) gives T(exp t) = sum_{k<=5} hat(t)^k/k! cell by cell, in the closed-form world and in every small-angle world (residual monomials bounded by |coef| * theta_s^a against the R-JET tolerances for double and float), hat being the table proved by C07.",
+                note=" Beyond order 5 of the Taylor expansion at the origin nothing is decided.", design="3/C02, 10.6, 10.7"),
+    "C03": dict(technique="; half-turn world; abstract interpretation of log(exp t) over truncated power series (R-SERIES)",
+                text=" R-JET.halfturn: SO3::log at the exact half turn (every comparison decided by exact substitution) returns +-pi*v. R-SERIES.log: for the six groups the code of log applied to the code of exp gives log(exp t) = t + O(|t|^6) coefficient by coefficient, in the closed-form world and in every small-angle world.",
+                design="3/C03, 10.6, 10.7"),
+    "C05": dict(technique="; exact polynomial Jacobians of compose/inverse/act (R-POLY.jac); power-series interpretation of the Jacobians written by exp and log (R-SERIES)",
+                text=" R-POLY.jac (exact): the Jacobians of inverse, compose and act equal the derivatives that follow from the matrix realisation. R-SERIES.expjac/logjac: the Jacobian written by exp(J), resp. by log(J) at exp(t), equals sum (-ad)^k/(k+1)!, resp. sum B_k (-ad)^k/k!, through order 4 for the six groups (closed-form and small-angle worlds).",
+                note=" The transcendental Jacobians are decided through order 4 of their expansion at the origin only.", design="3/C05, 10.5, 10.6"),
+    "C06": dict(technique="; exact adjoint (R-POLY.adj); power-series interpretation of rjac / ljac / rjacinv / ljacinv / Adj(exp t) (R-SERIES)",
+                text=" R-POLY.adj (exact): X.adj() e_i = vee(T(X) E_i T(X)^-1). R-SERIES: rjac, ljac, rjacinv, ljacinv equal their series in +-ad (Bernoulli numbers for the inverses; Eigen's inverse() of I + O(t) summarised by its Neumann series) and Adj(exp t) = sum ad^k/k!, through order 4 for the six groups, closed-form and small-angle worlds.",
+                note=" The series identities are decided through order 4 only.", design="3/C06, 10.5, 10.6"),
+    "C08": dict(text=" Producers include the planar casts (rebuild from the angle)."),
+    "C13": dict(text=" R-MPT.funnel-last: in every constructor the validating step is the last access to the coefficient storage.", design="3/C13, 10.7"),
+    "C15": dict(technique="; end points as identities of group terms (R-END, free-group reduction)",
+                text=" R-END: for SLERP, CUBIC and CNSMOOTH (degrees 1..4) the group term of the routine with the weights evaluated exactly at t = 0 / 1 reduces to A / B in the free group over {A, B, exp(v)} using associativity, X X^-1 = e, exp(0) = e, exp(-v) = exp(v)^-1, exp(log W) = W - for arbitrary end velocities and every group (96 identities).",
+                note_replace="A genuine defect found by R-END (interpolate_cubic returned B at t=0 and A at t=1) was repaired by a fix: commit. NOT decided: equivariance, interior values, rounding.", design="3/C15, 10.7"),
+    "C16": dict(text=" R-ITER.fresh: nothing derived from the iterate before the max_iterations loop is read inside it without being recomputed in the same pass.", design="3/C16, 10.7"),
+}
+for _k, _a in ADDENDA.items():
+    _c = CHECKS[_k]
+    _c["technique"] += _a.get("technique", "")
+    _c["text"] += _a.get("text", "")
+    if "note_replace" in _a:
+        _c["note"] = _a["note_replace"]
+    _c["note"] += _a.get("note", "")
+    if "design" in _a:
+        _c["design"] = _a["design"]
+
 NOT_APPLICABLE = {
     "C18": "Reflexivity at large coordinates, threshold behaviour and symmetry of isApprox depend on floating-point values of log(Y^-1 X); nothing about them is visible in the shape of the code. The only structural facts (operator== forwards to isApprox) are covered by C04's forwarding table.",
 }
